@@ -404,6 +404,8 @@ class FileWeaver:
         self.report = report
         self.fn_ranges = []     # (key, char_start, char_end, mode)
         self.n_seq = 0
+        self._layout_changed = set()
+        self.baseline_out = {}
 
     def add(self, pos, dele, text, kind, marks=None, prio=0):
         self.n_seq += 1
@@ -974,7 +976,17 @@ class FileWeaver:
             return
         if arg.startswith("stmt"):
             path = [int(x) for x in arg.split()[1].split("/")]
-            a, b = self.resolve_stmt(lo, hi, path, key, c)
+            pstr = arg.split()[1] + ("@loop%d" % c.loop if c.loop else "")
+            a = b = None
+            if key not in self._layout_changed:
+                try:
+                    a, b = self.resolve_stmt(lo, hi, path, key, c)
+                except WeaveError:
+                    self._layout_changed.add(key)
+            if a is not None:
+                self.baseline_out.setdefault(key, {})[pstr] = [t.text for t in toks[a:b + 1] if t.sig()][:7]
+            else:
+                a, b = self.relocate(lo, hi, key, pstr, c)
             if where == "before":
                 self.add(toks[a].pos, 0, text, "ghost", marks)
             else:
@@ -1013,6 +1025,40 @@ class FileWeaver:
                     break
                 q += 1
             self.add(toks[q].end, 0, text, "ghost", marks)
+
+    def relocate(self, lo, hi, key, pstr, c):
+        """statement layout of `key` differs from the contract's: find the anchored statement
+        by the first tokens it had on the tree the contract was written for"""
+        toks = self.toks
+        want = (BASELINE.get(self.relpath, {}).get(key, {}) or {}).get(pstr)
+        if not want:
+            raise WeaveError("lost anchor: hint %s in %s: statement layout changed and no baseline for path %s" % (c.cid, key, pstr))
+        sig = [q for q in range(lo + 1, hi) if toks[q].sig()]
+        hits = [sig[i] for i in range(len(sig) - len(want) + 1) if all(toks[sig[i + j]].text == want[j] for j in range(len(want)))]
+        if len(hits) != 1:
+            raise WeaveError("lost anchor: hint %s in %s: anchored statement (%s) %s after layout change" % (
+                c.cid, key, " ".join(want), "not found" if not hits else "ambiguous"))
+        start = hits[0]
+        # enclosing block
+        depth = 0
+        q = start - 1
+        blk_lo = lo
+        while q > lo:
+            t = toks[q]
+            if t.kind == PUNCT and t.text == "}":
+                depth += 1
+            elif t.kind == PUNCT and t.text == "{":
+                if depth == 0:
+                    blk_lo = q
+                    break
+                depth -= 1
+            q -= 1
+        blk_hi = match_close(toks, blk_lo)
+        for (a, b) in self.split_stmts(blk_lo, blk_hi):
+            if a == start:
+                self.report.setdefault("relocated", []).append("%s: hint %s re-anchored on `%s`" % (key, c.cid, " ".join(want)))
+                return a, b
+        raise WeaveError("lost anchor: hint %s in %s: re-anchoring failed" % (c.cid, key))
 
     def split_stmts(self, lo, hi):
         """statements (or match arms) directly inside the block toks[lo]='{' .. toks[hi]='}':
@@ -1109,7 +1155,9 @@ class FileWeaver:
                 stmts = self.split_stmts(lo, hi)
                 n = path[idx]
                 if n < 1 or n > len(stmts):
-                    raise WeaveError("lost anchor: %s statement layout changed (path %s)" % (key, part))
+                    self._layout_changed.add(key)
+                    self.report.setdefault("relocated", []).append("%s: statement layout changed (path %s)" % (key, part))
+                    return
                 a, b = stmts[n - 1]
                 k = path[idx + 1]
                 blocks = []
@@ -1124,12 +1172,16 @@ class FileWeaver:
                         q = e
                     q += 1
                 if k < 1 or k > len(blocks):
-                    raise WeaveError("lost anchor: %s statement layout changed (path %s)" % (key, part))
+                    self._layout_changed.add(key)
+                    self.report.setdefault("relocated", []).append("%s: statement layout changed (path %s)" % (key, part))
+                    return
                 lo, hi = blocks[k - 1]
                 idx += 2
             got = len(self.split_stmts(lo, hi))
             if got != int(cnt):
-                raise WeaveError("lost anchor: %s has %d statements at %s, contract expects %s" % (key, got, pth if path else "top level", cnt))
+                self._layout_changed.add(key)
+                self.report.setdefault("relocated", []).append("%s: statement layout changed (%s: %d, contract expects %s)" % (key, part, got, cnt))
+                return
 
     def stmt_start(self, idx, lo):
         """walk back from token idx to the first token of its statement (after ';', '{' or '}'
@@ -1234,8 +1286,15 @@ def line_of(text, pos):
     return text.count("\n", 0, pos) + 1
 
 
-def weave_tree(repo, out, extra_modules=None, contracts_dir=CONTRACTS, vacuity=False):
+BASELINE = {}
+
+
+def weave_tree(repo, out, extra_modules=None, contracts_dir=CONTRACTS, vacuity=False, record_baseline=False):
     """weave repo/src into out/src. returns anchors dict."""
+    global BASELINE
+    bp = os.path.join(contracts_dir, "anchor_baseline.json")
+    BASELINE = json.load(open(bp)) if (os.path.exists(bp) and not record_baseline) else {}
+    new_baseline = {}
     report = {"N1": [], "N2": [], "N3": 0}
     anchors = {"clauses": [], "functions": [], "files": {}, "normalisations": report,
                "body_hash_ok": True}
@@ -1262,6 +1321,8 @@ def weave_tree(repo, out, extra_modules=None, contracts_dir=CONTRACTS, vacuity=F
             extra = lib_extra(contracts_dir, extra)
         fw = FileWeaver(rel, src, fnspecs, itemspecs, extra, report)
         fw.weave()
+        if fw.baseline_out:
+            new_baseline[rel] = fw.baseline_out
         woven, ghost, marks, posmap = fw.render()
         # body-hash check: woven minus ghost text == original with only N1-N3 applied
         plain, _, _, _ = fw.render(kinds={"N1", "N2", "N3"})
@@ -1351,6 +1412,8 @@ def weave_tree(repo, out, extra_modules=None, contracts_dir=CONTRACTS, vacuity=F
                                                  "line_start": line_of(woven, wt[qi].pos) + shift,
                                                  "line_end": line_of(woven, wt[e].end) + shift,
                                                  "tags": tags, "contracted": True})
+    if record_baseline:
+        json.dump(new_baseline, open(bp, "w"), indent=1, sort_keys=True)
     # vacuity probes: one proof fn per contracted function, `requires` = its preconditions,
     # `ensures false`; every probe must FAIL (a probe that verifies = contradictory precondition)
     probes = report.get("vacuity", [])
@@ -1393,6 +1456,7 @@ def main():
     ap.add_argument("--repo", default="/repo")
     ap.add_argument("--out", required=False)
     ap.add_argument("--self-test", action="store_true")
+    ap.add_argument("--record-baseline", action="store_true", help="store the first tokens of every statement-anchored hint (run on the tree the contracts were written for)")
     args = ap.parse_args()
     if args.self_test:
         ok = True
@@ -1404,7 +1468,7 @@ def main():
         print("weave self-test:", "ok" if ok else "FAILED")
         sys.exit(0 if ok else 2)
     try:
-        anchors = weave_tree(args.repo, args.out)
+        anchors = weave_tree(args.repo, args.out, record_baseline=args.record_baseline)
     except WeaveError as e:
         print("WEAVE-ERROR:", e)
         sys.exit(2)
